@@ -240,6 +240,9 @@ func occClass(f *SFile, o *Occ) string {
 					walkExpFns(s.A, walk)
 					if desc == "" {
 						desc = "in-until-condition"
+						if inFuncLit(s.A) {
+							desc = "within-function-literal-in-until-condition"
+						}
 					}
 				}
 				walk(s.Body)
